@@ -28,12 +28,14 @@ impl Prop for C02 {
         } }
         for i in 0..(if th { 60 } else { 14 }) { v.push(case(&[("kind", "wrong".into()), ("pwi", (i % npw).to_string()), ("len", (*rng.pick(&[0usize, 30, 65537])).to_string()), ("rel", (*rng.pick(&["bitflip", "append", "drop", "other"])).into()), ("seed", rng.next().to_string())])); }
         v.extend(crate::props::clirt::cli_rt_cases("pass", tier, seed));
+        v.extend(crate::props::c12::C12.cases(tier, seed ^ 0x02).into_iter().filter(|c| get(c, "op") == "fifo-input" && get(c, "cmd").starts_with("pass")));
         v.push(case(&[("kind", "wrong".into()), ("pwi", "1".into()), ("len", "30".into()), ("rel", "nulpad".into()), ("seed", "21".into())]));
         v.push(case(&[("kind", "wrong".into()), ("pwi", "5".into()), ("len", "30".into()), ("rel", "longhash".into()), ("seed", "22".into())]));
         v
     }
     fn run(&self, c: &Case, m: &mut Model) -> Outcome {
         if get(c, "kind") == "cli-rt" { return crate::props::clirt::run_cli_rt(c, m); }
+        if get(c, "op") == "fifo-input" { return crate::props::c12::C12.run(c, m); }
         let mut o = Outcome::default();
         let mut rng = Rng::new(get(c, "seed").parse().unwrap_or(0));
         let pws = passwords(&mut rng);
